@@ -242,7 +242,9 @@ def convertall(table, *args, **kwargs):
     """
 
     # TODO don't read the data twice!
-    return convert(table, fieldnames(table), *args, **kwargs)
+    # N.B., select fields by index, so fields sharing a name are all converted
+    indices = tuple(range(len(fieldnames(table))))
+    return convert(table, indices, *args, **kwargs)
 
 
 Table.convertall = convertall
